@@ -45,7 +45,8 @@ REACH = {
         "loss_after_completion", "eof_while_waiting", "startup_completed", "startup_loss",
         "startup_loss_same_iteration_as_timeout", "numbering_restarted_checked", "clean_close_while_waiting",
         "numbering_checked_after_reset", "numbering_checked_after_startup", "second_request_judged",
-        "request_after_a_timed_out_request_completed", "ncp_frame_between_rst_and_rstack"]
+        "request_after_a_timed_out_request_completed", "ncp_frame_between_rst_and_rstack", "rst_write_failed",
+        "host_frame_pending_at_reset"]
     for t in ("quick", "thorough")
 }
 SOFTWARE = 0x0B
@@ -72,9 +73,14 @@ class Wire:
         self.tr, self.clock = tr, clock
         self.closing = False
         self.on_data = None
+        self.fail_next = False
 
     def write(self, data):
         data = bytes(data)
+        if self.fail_next:
+            self.fail_next = False
+            self.tr.append(("wr_failed", self.clock(), data))
+            raise OSError("write failed")
         self.tr.append(("wr", self.clock(), data))
         frames, _ = R.split_wire(data)
         for cancel, fr, raw in frames:
@@ -120,6 +126,12 @@ def run_case(case):
             feed(R.encode_data(peer_tx[0], 0, case["tx"] % 8, b"cb%d" % k), ("data", peer_tx[0]))
             peer_tx[0] = (peer_tx[0] + 1) % 8
         await vloop.settle(loop, 3)
+        pend = None
+        if case.get("pending"):
+            # a DATA frame of the host is still unacknowledged when the reset is requested
+            wire.on_data = None
+            pend = asyncio.ensure_future(gw.send_data(b"pending"))
+            await vloop.settle(loop, 3)
         tr.append(("prior_done", clock()))
 
         def lose(kind):
@@ -143,15 +155,24 @@ def run_case(case):
                 return R.encode_rstack(code)
             if what == "error":
                 return R.encode_error(code)
+            if what == "ackrstack":
+                # the acknowledgement of the host's last pre-reset frame and the RSTACK in one read
+                return R.encode_ack((case["tx"] + 1) % 8) + R.encode_rstack(code)
+            if what == "ack":
+                return R.encode_ack(code)
             # a DATA frame of the NCP that was already on its way when the host asked for the reset
             return R.encode_data(code, 0, 0, b"in-flight")
 
-        async def one_round(script, loss, waiter_kind):
+        async def one_round(script, loss, waiter_kind, fail=None):
             round_start = len(tr)
-            wire.on_data = auto_ack
+            wire.on_data = auto_ack if not case.get("pending") else None
+            if fail == "oserror":
+                wire.fail_next = True
+            elif fail == "closing":
+                wire.closing = True
             for when, what, code in script:
                 if when == "pre":
-                    feed(wire_bytes(what, code), (what, code))
+                    feed(wire_bytes(what, code), ("rstack" if what == "ackrstack" else what, code))
             if loss and loss[0] == "pre":
                 lose(loss[1])
             await vloop.settle(loop, 3)
@@ -197,7 +218,7 @@ def run_case(case):
 
             for when, what, code in script:
                 if when != "pre":
-                    at(when, feed, wire_bytes(what, code), (what, code))
+                    at(when, feed, wire_bytes(what, code), ("rstack" if what == "ackrstack" else what, code))
             if loss and loss[0] not in ("pre", "after"):
                 at(loss[0], lose, loss[1])
             await asyncio.wait([task])
@@ -226,12 +247,12 @@ def run_case(case):
                 except BaseException:  # noqa: BLE001
                     pass
         loss = case.get("loss")  # (when, kind)
-        await one_round(case["script"], loss, case["waiter"])
+        await one_round(case["script"], loss, case["waiter"], case.get("fail"))
         # further reset requests on the same gateway (each judged like the first)
         for nxt in case.get("then", []):
             tr.append(("round", clock()))
             await asyncio.sleep(nxt.get("gap", 0.3))
-            await one_round(nxt["script"], None, nxt.get("waiter", "reset"))
+            await one_round(nxt["script"], None, nxt.get("waiter", "reset"), nxt.get("fail"))
         if loss and loss[0] == "after":
             lose(loss[1])
             await vloop.settle(loop, 4)
@@ -252,7 +273,7 @@ def judge(case, tr, info, reset_timeout):
             segs.append([])
         else:
             segs[-1].append(e)
-    subs = [case] + [dict(waiter=n.get("waiter", "reset"), script=n["script"], tx=case["tx"], rx=case["rx"]) for n in case.get("then", [])]
+    subs = [case] + [dict(waiter=n.get("waiter", "reset"), script=n["script"], tx=case["tx"], rx=case["rx"], fail=n.get("fail")) for n in case.get("then", [])]
     bad, facts = [], set()
     for k, (seg, sub) in enumerate(zip(segs, subs)):
         inf = dict(info)
@@ -284,6 +305,19 @@ def judge_one(case, tr, info, reset_timeout):
     out = next((e for e in tr if e[0] in ("ret", "exc")), None)
     waiter = case["waiter"]
     if t_call is None:
+        return bad, facts
+    if case.get("fail"):
+        # the RST could not be written (write error / port closing): the request must end at once
+        # with an error - and must leave nothing behind that makes a later request hang
+        if out is None:
+            if not info["hang"]:
+                bad.append(("C11/hang/waiter-left-pending", "reset() whose RST write failed neither returned nor raised"))
+        elif out[0] == "ret":
+            bad.append(("C11/completion/without-software-rstack", "reset() returned although its RST could not be written"))
+        elif abs(out[1] - t_call) > EPS:
+            bad.append(("C11/request/failed-write-not-reported-at-once", f"reset() raised {out[2]} {out[1] - t_call:.3f}s after the failed write"))
+        else:
+            facts.add("rst_write_failed")
         return bad, facts
     # request bytes
     if waiter == "reset":
@@ -372,7 +406,7 @@ def judge_one(case, tr, info, reset_timeout):
         for e in seg:
             if e[0] == "wr":
                 for cancel, fr, raw in R.split_wire(e[2])[0]:
-                    if fr is not None and fr.kind == "DATA":
+                    if fr is not None and fr.kind == "DATA" and fr.payload == b"after-reset":
                         datas.append(fr)
                     if fr is not None and fr.kind in ("ACK", "NAK"):
                         acks.append(fr)
@@ -457,6 +491,19 @@ def gen_cases(tier, seed):
         cases.append({"waiter": "reset", "tx": i, "rx": j, "script": [], "then": [{"script": []}, {"script": SW_IN}]})
         cases.append({"waiter": "startup", "tx": i, "rx": j, "script": [], "then": [{"script": SW_IN}]})
         cases.append({"waiter": "startup", "tx": i, "rx": j, "script": SW_IN, "then": [{"script": SW_IN}, {"script": SW_IN, "waiter": "startup"}]})
+    # E2. the RST itself cannot be written (write error, port closing): the request fails at once, and
+    #     the next request behaves like any other
+    for (i, j) in ntx[:2]:
+        for second in (SW_IN, []):
+            cases.append({"waiter": "reset", "tx": i, "rx": j, "script": [], "fail": "oserror", "then": [{"script": second}]})
+            cases.append({"waiter": "reset", "tx": i, "rx": j, "script": SW_IN, "then": [{"script": [], "fail": "oserror"}, {"script": second}]})
+        cases.append({"waiter": "reset", "tx": i, "rx": j, "script": [], "fail": "closing", "then": [{"script": [], "fail": "closing"}]})
+    # E3. a DATA frame of the host is still unacknowledged when the reset is requested; its ACK comes in
+    #     the same read as the RSTACK, or right after it
+    for (i, j) in (pairs if tier == "thorough" else ntx + [(1, 0), (2, 6), (6, 1)]):
+        nack = (i + 1) % 8
+        cases.append({"waiter": "reset", "tx": i, "rx": j, "pending": True, "script": [("in", "ackrstack", SOFTWARE)]})
+        cases.append({"waiter": "reset", "tx": i, "rx": j, "pending": True, "script": [("in0", "ack", nack), ("in", "rstack", SOFTWARE)]})
     # F. an NCP frame that was already on its way arrives between the RST and the RSTACK (old numbering:
     #    the next expected number, or zero): whatever the host does with it, numbering restarts at the RSTACK
     for (i, j) in (pairs if tier == "thorough" else ntx + [(0, 1), (2, 0), (5, 3)]):
@@ -502,6 +549,8 @@ def run_one(acc: Acc, case):
             acc.hit("startup_loss")
             if loss[0] == "T-":
                 acc.hit("startup_loss_same_iteration_as_timeout")
+    if case.get("pending") and any(e[0] == "post_check" for e in tr):
+        acc.hit("host_frame_pending_at_reset")
     if any(what == "data" for w, what, c in sc):
         acc.hit("ncp_frame_between_rst_and_rstack")
     for w, what, c in sc:
